@@ -4,9 +4,11 @@
 # compiled on this host.  The copy lives in /tmp and is removed by ./check.
 set -e
 src=/tmp/mipidsi-verif-ptr16-src
+tdir=/verif/target/ptr16
+[ -n "${MIPIDSI_SRC:-}" ] && { src=/tmp/mipidsi-verif-ptr16-src-alt; tdir="${MC_TARGET_BASE:-/tmp/mc-target}/ptr16"; }
 rm -rf "$src"; mkdir -p "$src"
 # copy the working tree (tracked + modified files), preserving mtimes so cargo can reuse its cache
-( cd /repo && tar --exclude=./target --exclude=./.git -cf - . ) | ( cd "$src" && tar -xpf - )
+( cd "${MIPIDSI_SRC:-/repo}" && tar --exclude=./target --exclude=./.git -cf - . ) | ( cd "$src" && tar -xpf - )
 python3 - "$src/src/graphics.rs" <<'PY'
 import sys,re
 p=sys.argv[1]; s=open(p).read()
@@ -21,6 +23,6 @@ st=os.stat(p); open(p,'w').write(s)
 PY
 cd /verif/mc
 export CARGO_NET_OFFLINE=true RUSTFLAGS="--cfg mipidsi_verif"
-CARGO_TARGET_DIR=/verif/target/ptr16 cargo build --release --quiet --config "patch.crates-io.mipidsi.path=\"$src\"" 2>&1 | grep -v "^warning: unused\|^$" | head -40 >&2 || true
-test -x /verif/target/ptr16/release/mc || { echo "MACHINERY: build of variant ptr16 failed" >&2; exit 2; }
-echo /verif/target/ptr16/release/mc
+mkdir -p "$tdir"; CARGO_TARGET_DIR=$tdir cargo build --release --quiet --config "patch.crates-io.mipidsi.path=\"$src\"" >"$tdir.log" 2>&1 || { tail -40 "$tdir.log" >&2; echo "MACHINERY: cargo build failed" >&2; exit 2; }
+test -x $tdir/release/mc || { echo "MACHINERY: build of variant ptr16 failed" >&2; exit 2; }
+echo $tdir/release/mc
